@@ -162,10 +162,10 @@ def run_population(ck, rng, scratch, tpl, files, time_cov, probes, use_model=Tru
                 got = (info.times[0], info.times[1])
             except Exception as e:  # noqa
                 got = f"{type(e).__name__}: {e}"
-            if got != (f.t0, f.t1):
-                ck.count("skipped/parse-mismatch")
-                ck.notes.append(f"coverage parsed from {'/'.join(f.rel)} under {tpl.text()} is {got}, harness intended {(f.t0, f.t1)}")
-                return
+            if got != (f.t0, f.t1):      # find_closest then works on a wrong coverage: the oracle below judges by the stated one
+                ck.count("coverage-parse-mismatch")
+                if len(ck.notes) < 20:
+                    ck.notes.append(f"coverage parsed from {'/'.join(f.rel)} under {tpl.text()} is {got}, the name states {(f.t0, f.t1)}")
         ordered = G.traversal_sorted(tpl, files)
         lines = [tpl.layout_line(), "clear"] + [G.file_line(tpl, f) for f in ordered]
         nhead = len(lines)
